@@ -363,7 +363,8 @@ ASSUMPTIONS = [
     'claimed for the in-memory side against the documented contract only; the SQLite side (equivalence itself, reopen, schema upgrade, read-only) is SQL executed by the C engine and is outside',
     'sync_complete may drop the operations of tasks that no longer exist (documented as permitted cleanup; the in-memory storage does so)',
     'collections compared without regard to order; HashMap as association list',
-    'counterexamples and a sample of explored call sequences are replayed on the compiled crate against BOTH real backends (InMemoryStorage and SqliteStorage in a scratch directory); a disagreement between them confirms the violation',
+    'counterexamples and every distinct contract-respecting call sequence of the bound (thorough: one in 48, chosen by VERIF_SEED) are replayed on the compiled crate against BOTH real backends (InMemoryStorage and SqliteStorage in a scratch directory); a disagreement between them is reported as a violation',
+    'set_working_set_item with an index outside the working set is outside the documented contract ("cannot add a new item"): the in-memory result is still checked (it must not add an item) but the two backends are not compared on such sequences',
 ]
 EXPLANATION = ('every call sequence inside the bound is forked; task values / operation values are symbolic and compared by z3; each '
                'return value of the real Txn method is compared with the executable contract, and the state visible after commit or '
